@@ -221,6 +221,39 @@ StepMul(i, s) ==
               y == Rd(i.ops[n], w, s)
               prod == SMulFull(x, y, w) IN
           [WrOp(p, i.ops[1], w, Norm(prod, w), s) EXCEPT !.fl = mflags(B(SExt(Norm(prod, w), w, 2 * w) # prod))]
+\* Unsigned division of W-bit values by base-256 long division with a normalised divisor (Knuth's algorithm D, one
+\* correction loop): <<quotient, remainder>>, b # 0.  Same results as BV!UDivRem (bit serial, ~50 times slower in TLC);
+\* the equality is discharged by X86SemSelf.
+SigLimbs(v) == CHOOSE k \in 1..Len(v) : v[k] # 0 /\ \A m \in (k + 1)..Len(v) : v[m] = 0
+LeadZ8(x) == IF x >= 128 THEN 0 ELSE IF x >= 64 THEN 1 ELSE IF x >= 32 THEN 2 ELSE IF x >= 16 THEN 3
+             ELSE IF x >= 8 THEN 4 ELSE IF x >= 4 THEN 5 ELSE IF x >= 2 THEN 6 ELSE 7
+FastUDivRem(a, b, W) ==
+   LET n == NL(W)
+       nb == SigLimbs(b)
+       sh == LeadZ8(b[nb])
+       Wb == 8 * nb
+       Wc == 8 * (nb + 1)
+       bN == ShlN(Norm(b, Wb), sh, Wb)
+       aN == ShlN(ZExt(a, W + 8), sh, W + 8)
+       bNc == ZExt(bN, Wc)
+       btop == bN[nb]
+       RECURSIVE go(_,_,_)
+       go(j, rem, q) ==
+          IF j = 0 THEN <<q, rem>> ELSE
+          LET cur == BOr(ShlN(rem, 8, Wc), ZExt(<<aN[j]>>, Wc), Wc)
+              ct == cur[nb + 1] * 256 + cur[nb]
+              q0 == IF ct \div btop > 255 THEN 255 ELSE ct \div btop
+              RECURSIVE fix(_,_)
+              fix(qh, prod) == IF Ult(cur, prod) THEN fix(qh - 1, Sub(prod, bNc, Wc)) ELSE <<qh, prod>>
+              f == fix(q0, Norm(MulLimbs(bN, <<q0>>, nb + 1), Wc))
+          IN go(j - 1, Sub(cur, f[2], Wc), <<f[1]>> \o q)
+       r == go(n + 1, Zero(Wc), <<>>)
+   IN <<Norm(r[1], W), Norm(ShrN(r[2], sh, Wc), W)>>
+FastSDivRem(a, b, W) ==
+   LET qr == FastUDivRem(Abs(a, W), Abs(b, W), W)
+       q == IF Msb(a, W) # Msb(b, W) THEN Neg(qr[1], W) ELSE qr[1]
+       r == IF Msb(a, W) = 1 THEN Neg(qr[2], W) ELSE qr[2]
+   IN <<q, r>>
 StepDiv(i, s) ==
    LET w == i.w  p == Keep(i, s)
        src == Rd(i.ops[1], w, s)
@@ -228,7 +261,7 @@ StepDiv(i, s) ==
               ELSE Concat(RegRead(s.reg, AccC(w), 0), w, RegRead(s.reg, AccC(w), 2), w)
        sgn == i.mn = "idiv" IN
    IF IsZero(src) THEN Fault(i, s, "DE")
-   ELSE LET qr == IF sgn THEN SDivRem(num, SExt(src, w, 2 * w), 2 * w) ELSE UDivRem(num, ZExt(src, 2 * w), 2 * w)
+   ELSE LET qr == IF sgn THEN FastSDivRem(num, SExt(src, w, 2 * w), 2 * w) ELSE FastUDivRem(num, ZExt(src, 2 * w), 2 * w)
             q == Norm(qr[1], w)
             fits == IF sgn THEN SExt(q, w, 2 * w) = qr[1] ELSE ZExt(q, 2 * w) = qr[1] IN
         IF ~fits THEN Fault(i, s, "DE")
